@@ -1188,6 +1188,6 @@ def checks(h):
                  "seed": None, "perm": n % 14}
             run_recipe(h, r, "pairs_", distinct=True)
     depth = 3 if h.quick else 4
-    h.hyp("trees", tree_strategy(T, depth), lambda r: run_recipe(h, r), h.scale(600, 9000), 1)
-    h.hyp("trees_shallow", tree_strategy(T, 2), lambda r: run_recipe(h, r), h.scale(300, 5000), 2)
-    h.hyp("hints", hint_strategy(T, 3), lambda r: run_recipe(h, r), h.scale(300, 5000), 3)
+    h.hyp("trees", tree_strategy(T, depth), lambda r: run_recipe(h, r), h.scale(600, 6000), 1)
+    h.hyp("trees_shallow", tree_strategy(T, 2), lambda r: run_recipe(h, r), h.scale(300, 3000), 2)
+    h.hyp("hints", hint_strategy(T, 3), lambda r: run_recipe(h, r), h.scale(300, 3000), 3)
